@@ -56,8 +56,13 @@ impl Distribution for Gamma {
     ///
     /// # Remarks
     /// Uses the algorithm from Marsaglia and Tsang 2000. Applies the squeeze
-    /// method and has nearly constant average time for `alpha >= 1`.
+    /// method and has nearly constant average time for `alpha >= 1`. For `alpha < 1` the
+    /// boosting identity Gamma(alpha) = Gamma(alpha + 1) * U^(1 / alpha) from the same paper is used.
     fn sample(&self) -> f64 {
+        if self.alpha < 1. {
+            let u = self.uniform_gen.sample();
+            return Gamma::new(self.alpha + 1., self.beta).sample() * u.powf(1. / self.alpha);
+        }
         let d = self.alpha - 1. / 3.;
         loop {
             let (x, v) = loop {
